@@ -12,22 +12,25 @@ def native_zcrc(ctx):
 #include <zlib.h>
 unsigned long m_crc32(unsigned long, const unsigned char*, unsigned int);
 int liberasurecode_crc32_alt(int crc, const void *buf, size_t size);
+uint32_t ref_crc32(const uint8_t *p, size_t n); uint32_t ref_crc32_legacy(const uint8_t *p, size_t n);
 int main(int c, char **v){ unsigned seed=atoi(v[1]); int n=atoi(v[2]); srand(seed); unsigned char b[300]; long cmp=0;
  for(int t=0;t<n;t++){ int len=rand()%300; for(int i=0;i<len;i++) b[i]=rand(); if (t%3==0) for(int i=0;i<len;i++) b[i]&=0x7f;
    if(crc32(0,b,len)!=m_crc32(0,b,len)){printf("MISMATCH len=%d seed=%u t=%d\n",len,seed,t);return 1;}
-   /* for 7-bit-clean buffers the historical CRC equals the standard one */
-   if (t%3==0 && (uint32_t)liberasurecode_crc32_alt(0,b,len)!=(uint32_t)crc32(0,b,len)){printf("ALT-MISMATCH t=%d\n",t);return 1;}
+   /* reference serializer's CRCs: standard == libz, historical == the repo's crc32_alt */
+   if (ref_crc32(b,len)!=crc32(0,b,len)){printf("REF-STD-MISMATCH t=%d\n",t);return 1;}
+   if (ref_crc32_legacy(b,len)!=(uint32_t)liberasurecode_crc32_alt(0,b,len)){printf("REF-LEGACY-MISMATCH t=%d\n",t);return 1;}
    cmp++; }
  printf("compared=%ld\n",cmp); return 0; }
 ''')
     exe = os.path.join(ctx.work, "zv")
     rc, o, e, to, _ = core.run(["gcc", "-O1", "-DZCRC_NAME=m_crc32", src, os.path.join(core.VERIF, "model/zcrc32.c"),
-                                os.path.join(core.REPO, "src/utils/chksum/crc32.c"), "-o", exe, "-lz"], timeout=120)
+                                os.path.join(core.REPO, "src/utils/chksum/crc32.c"), os.path.join(core.VERIF, "model/ref_format.c"),
+                                os.path.join(core.VERIF, "model/xor_eq.c"), "-I", os.path.join(core.VERIF, "model"), "-o", exe, "-lz"], timeout=120)
     if rc != 0:
         return False, "zcrc32 validation build failed: " + e[-500:], ""
     n = 100000 if ctx.tier == "quick" else 1000000
     rc, o, e, to, _ = core.run([exe, str(ctx.seed or 1), str(n)], timeout=600)
-    return rc == 0, f"model/zcrc32.c vs libz crc32 on {n} random buffers: {o.strip()}", ""
+    return rc == 0, f"model/zcrc32.c and ref_format CRCs vs libz crc32 / repo crc32_alt on {n} random buffers (seed {ctx.seed or 1}): {o.strip()}", ""
 
 def plan(ctx):
     obs = []
